@@ -118,7 +118,13 @@ type c12World struct {
 	cur     []*CfgSpec // configuration each middleware currently has (changes with the retarget step)
 	base    []*CfgSpec
 	isAlt   []bool
+	// outerWritten: set when a header slice that an outer layer shares between its responses was found modified
+	outerWritten string
 }
+
+// c12OuterShared: response-header slices that an outer layer installs, unchanged, into every response it decorates
+// (capacity == length: appending reallocates; nobody downstream may write into them)
+var c12OuterPristine = map[string][]string{hVary: {"Accept-Encoding", "Cookie"}, "X-Served-By": {"outer"}}
 
 // altSpec returns a valid configuration with lists of exactly the same lengths as c but other values
 // (every pattern secure, so it is valid under any switch combination c is valid under).
@@ -223,7 +229,7 @@ func newC12World(specs []*CfgSpec, debug bool, canon bool) (*c12World, error) {
 	return w, nil
 }
 
-var c12Kinds = []string{"retarget-via-mutated-arg", "poison-config-arg", "poison-config-result", "poison-handler-actual", "poison-handler-noncors", "poison-handler-options",
+var c12Kinds = []string{"requests-behind-sharing-outer-layer", "retarget-via-mutated-arg", "poison-config-arg", "poison-config-result", "poison-handler-actual", "poison-handler-noncors", "poison-handler-options",
 	"requests", "reconfigure-same-then-poison", "config-result-append", "poison-handler-multi-origin"}
 
 func (w *c12World) apply(st c12Step, rng *rand.Rand) {
@@ -273,6 +279,26 @@ func (w *c12World) apply(st c12Step, rng *rand.Rand) {
 		for k := 0; k < 12; k++ {
 			serve(m, suite[rng.IntN(len(suite))])
 		}
+	case "requests-behind-sharing-outer-layer":
+		// an outer layer that puts the SAME slices into every response (lesson of seeded change C12-jJ)
+		shared := map[string][]string{}
+		for k, v := range c12OuterPristine {
+			shared[k] = append(make([]string, 0, len(v)), v...)
+		}
+		for _, q := range suite {
+			inner := &countingHandler{body: "ok"}
+			rwr := newRW()
+			rwr.inner = inner
+			for k, v := range shared {
+				rwr.h[k] = v
+			}
+			wrappedOnce(m).ServeHTTP(rwr, q.httpReq())
+			for k, v := range c12OuterPristine {
+				if !equalStrings(shared[k], v) && w.outerWritten == "" {
+					w.outerWritten = fmt.Sprintf("after %s the %s slice %q that an outer layer shares between its responses reads %q", reqString(q), k, v, shared[k])
+				}
+			}
+		}
 	case "reconfigure-same-then-poison":
 		cfg := w.cur[i].Config()
 		if err := m.Reconfigure(&cfg); err == nil {
@@ -320,6 +346,12 @@ func (w *c12World) apply(st c12Step, rng *rand.Rand) {
 
 // probe compares the answers of every middleware to (a slice of) its suite with the golden answers.
 func (w *c12World) probe(r *Run, l *Local, cs c12Case, upto int, full bool, rng *rand.Rand) bool {
+	if w.outerWritten != "" {
+		c := cs
+		c.FailedAfter = upto
+		r.Violate("outer-slice-written", "golden", fmt.Sprintf("after steps %v: %s - the response to a later request through that layer depends on an earlier request", stepNames(cs.Steps[:upto]), w.outerWritten), c)
+		return false
+	}
 	for i, m := range w.mws {
 		suite := w.suites[i]
 		n := len(suite)
@@ -378,7 +410,7 @@ func c12RunHistory(r *Run, l *Local, cs c12Case) {
 func TestVerif_C12(t *testing.T) {
 	r := newRun(t, "C12")
 	r.Rule("worlds of three live middlewares, built from configurations as written or (half of the worlds) from their canonical form as returned by another middleware's Config(), a quarter of them with lists of 9-40 elements (two built from one shared Config value - one by NewMiddleware, one by Reconfigure on a zero value - and one with another configuration, reached by reconfiguring a middleware of a third configuration through passthrough) x debug x histories of adversarial steps: overwrite/re-slice/grow every slice of the Config argument after the call, of every Config() result, " +
-		"a wrapped handler overwriting in place (and beyond length, within capacity) every request- and response-header slice it can reach on every non-preflight path, ordinary requests of all kinds, Reconfigure with an equal configuration that is poisoned afterwards, and retargeting (the caller overwrites the slices it handed in with the values of another valid configuration of the same list lengths, then reconfigures to that configuration). After every step probes are compared with the answers of a fresh never-touched middleware (full suite after the last step). " +
+		"a wrapped handler overwriting in place (and beyond length, within capacity) every request- and response-header slice it can reach on every non-preflight path, ordinary requests of all kinds, requests behind an outer layer that installs the same Vary / X-Served-By slices into every response (which must stay intact), Reconfigure with an equal configuration that is poisoned afterwards, and retargeting (the caller overwrites the slices it handed in with the values of another valid configuration of the same list lengths, then reconfigures to that configuration). After every step probes are compared with the answers of a fresh never-touched middleware (full suite after the last step). " +
 		"evaluation = one probe; non-trivial = distinct (world, history), by hash; every (step kind) x (probe kind) pair occurs. The race phase hammers shared middlewares from 16 goroutines under -race.")
 	r.Assume("the wrapped handler is the only adversary inside the request path: what a custom ResponseWriter or an outer middleware could reach on the preflight path (where the wrapped handler never runs) is outside the statement of C12")
 
